@@ -10,6 +10,7 @@
 import Scico.Proofs.ProxCalcAbs
 import Scico.Proofs.ProxCalc
 import Scico.Proofs.ProxCalcTree
+import Scico.Proofs.FuncEval
 
 namespace Scico.Props.C08
 open Scico Scico.ProxCalcAbs Scico.ProxCalc Scico.FuncEval
@@ -238,5 +239,36 @@ theorem C08_tree_sound (En : Env ℝ) (S : LeafSem) (hS : LeafSound En S) (t : F
     (hr : prox En t v lam = .ok p) :
     IsProxA (dom En S t) (den En S t) lam v p :=
   tree_sound En S hS t v p hl hp hgen hls hr
+
+-- non-vacuity of `C08_tree_sound`: leaves = `ZeroFunctional` (prox = identity), tree `2 * Separable([Loss(y, f=zero, scale=3), zero])`
+section nonvacuity_sound
+
+def zEnv : Env ℝ where
+  hasEval := fun _ => true
+  hasProx := fun _ => true
+  eval := fun _ _ => 0
+  prox := fun _ v _ => v
+  opEval := fun _ x => x
+  solve := fun _ _ _ _ v => v
+  cplx := false
+
+def zSem : LeafSem := ⟨fun _ _ => True, fun _ _ => 0⟩
+
+theorem zSound : LeafSound zEnv zSem := fun _ v lam _ _ => isProxA_zero lam v
+
+noncomputable def zTree : Fn ℝ := .scaled 2 (.scons (.loss (.arr [1, 2]) none (.leaf 0) 3) (.scons (.leaf 0) .snil))
+
+example : ∃ p, prox zEnv zTree (.blk [[5, 6], [7]]) 1 = .ok p ∧
+    IsProxA (dom zEnv zSem zTree) (den zEnv zSem zTree) 1 (.blk [[5, 6], [7]]) p := by
+  have hp : hasProx zEnv zTree = true := by simp [zTree, hasProx, zEnv]
+  have hg : Generic zTree := by simp [zTree, Generic]
+  have hls : LossScalesPos zTree := by simp [zTree, LossScalesPos]
+  have hc : Conforms zEnv zTree (.blk [[5, 6], [7]]) :=
+    ⟨_, _, rfl, ⟨by simp [Arg.shapeEq, Env.applyOpt], fun _ _ => trivial⟩, _, _, rfl, trivial, rfl⟩
+  obtain ⟨p, hpr, _⟩ := prox_ok_of_hasProx zEnv ⟨fun _ v _ => Arg.shapeEq_refl v, fun _ _ _ _ v => Arg.shapeEq_refl v⟩
+    zTree (.blk [[5, 6], [7]]) 1 hp hg hc
+  exact ⟨p, hpr, C08_tree_sound zEnv zSem zSound zTree _ p one_pos hp hg hls hpr⟩
+
+end nonvacuity_sound
 
 end Scico.Props.C08
